@@ -136,7 +136,7 @@ def body(ctx):
         cases += [(payload, i, x) for (i, x) in ms]
     for (payload, i, x) in cases:
         mode = ('sync', 'async')[(i + x) % 2]
-        dev = simdev.SimDevice()
+        dev = simdev.SimDevice(auth=simdev.AuthPolicy(version=(0x01000000, 0x01000001, 0xFFFFFFFF)[(i + x) % 3]))
         dev.shell_scripts[b'shell:x'] = [payload, b'tail']
         sess = env.Session(mode, dev)
 
